@@ -359,3 +359,15 @@ def continuation_semicolon_case(before_src: str, op: dict) -> bool:
         if rest == '\\' and lines[el].lstrip().startswith(';'):
             return True
     return False
+
+
+def stmt_before_continuation_semicolon(src: str, stmt) -> bool:
+    """`stmt` (an ast statement of ast.parse(src), or anything with end_lineno / end_col_offset) is followed by a line continuation and a ';' that stands
+    alone (nothing but white space / a comment after it) on the next physical line: the known-finding layout for put_line_comment"""
+    lines = src.split('\n')
+    el, ec = getattr(stmt, 'end_lineno', None), getattr(stmt, 'end_col_offset', None)
+    if el is None or el >= len(lines):
+        return False
+    rest = lines[el - 1].encode()[ec:].decode().strip()
+    nxt = lines[el].strip()
+    return rest == '\\' and nxt.startswith(';') and (nxt[1:].strip() == '' or nxt[1:].strip().startswith('#'))
